@@ -217,7 +217,10 @@ def analyse_module(tree, relpath):
         params, deps = _param_deps(fnode, enclosing_params)
         globals_declared = {n for g in ast.walk(fnode) if isinstance(g, ast.Global) for n in g.names}
         own_nodes = list(_own_nodes(fnode))
-        for n in own_nodes:
+        # class-creation hooks run once per class, at import: what they record (a registry of subclass names) is not a
+        # result kept between calls
+        creation_hook = fnode.name in ("__init_subclass__", "__set_name__", "__class_getitem__")
+        for n in ([] if creation_hook else own_nodes):
             # --- dict-style memo: G[key] = value / G.setdefault(key, value) / G.update({key: value})
             key = val = target = None
             sub_targets = [t for t in n.targets if isinstance(t, ast.Subscript)] if isinstance(n, ast.Assign) else []
